@@ -56,7 +56,7 @@ func SplitBits(p *load.Program, run *report.Run) {
 // sbit: 0 and 1 are the constants; 2+2k is the atom in[k], 3+2k its negation.
 type sbit int32
 
-func atomBit(k int) sbit { return sbit(2 + 2*k) }
+func atomBit(k int) sbit     { return sbit(2 + 2*k) }
 func (b sbit) isConst() bool { return b < 2 }
 func (b sbit) not() sbit {
 	if b.isConst() {
